@@ -117,7 +117,7 @@ Theorem c04_literal_execute_escaped_name_refuted :
 Proof. split; [vm_compute; reflexivity|]. intros []; vm_compute; reflexivity. Qed.
 Print Assumptions c04_literal_execute_escaped_name_refuted.
 
-(* two BindParameter objects share the name "p" and only the second is literal_execute: the first occurrence
+(* two bind objects share the name "p" and only the second is literal_execute: the first occurrence
    keeps its placeholder but its value is removed from the parameters (numeric even renders an empty string),
    so no driver can bind the statement *)
 Theorem c04_mixed_literal_execute_refuted :
